@@ -124,7 +124,8 @@ def run(R):
         _check_float_type(R, P, a, ims, loc)
     # numeric comparison by value in the Compare arm
     ev = R.need_fn("sqlgrep::execution::expression_execution::ExpressionExecutionEngine::evaluate")
-    cmp_calls = [c for c in ev.calls if c.func.get("trait") == "core::cmp::PartialOrd" and (c.targs[:1] == ["sqlgrep::model::Value"])]
+    cmp_calls = [c for c in ev.calls if c.func.get("trait") in ("core::cmp::PartialOrd", "core::cmp::Ord") and
+                 (c.targs[:1] == ["sqlgrep::model::Value"]) and c.func.get("trait_method") in ("lt", "le", "gt", "ge", "cmp", "partial_cmp")]
     coercions = []
     for i, s in ev.stmts():
         if s["rv"]["k"] == "cast" and s["rv"]["ck"] == "IntToFloat" and s["rv"]["from"] == "i64":
@@ -137,7 +138,7 @@ def run(R):
         else:
             R.violation("C16.numcmp", key, "Value ordered comparison in evaluate without INT->REAL conversion of both operand positions "
                                            "on a path to it: an INT and a REAL are ordered by enum variant", [c.loc()])
-    R.floor("C16.numcmp", 4)
+    R.floor("C16.numcmp", 1)
     R.floor("C16.closure", 5)
     R.assume("std, chrono::DateTime<Local> and TimeDelta implement lawful, mutually consistent Eq/Ord/Hash")
     R.assume("derived impls over lawful field types are lawful (lexicographic by declaration order, variant index first)")
